@@ -492,6 +492,8 @@ func applyPolicy(r *rand.Rand, fi *fnInfo, args []val, opts *[]string, classes *
 			// keep only the class where the result length overflows: Go
 			// refuses that without allocating
 			if args[1].Mag == magHuge && r.Intn(2) == 0 {
+				// 8 bytes times 2^61 or more always overflows int
+				args[0] = val{"abcdefgh", "str", 0}
 				args[1] = val{[]string{"4611686018427387904", "9223372036854775807", "2305843009213693952"}[r.Intn(3)], "num", magHuge}
 				*classes = append(*classes, "str-repeat-overflow")
 			} else {
@@ -603,6 +605,13 @@ func (h *harness) genCall(r *rand.Rand, fi *fnInfo) program {
 	call := strings.Join(parts, " ")
 
 	style := r.Intn(11)
+	for _, a := range args {
+		if a.Expr == "$nil" && (style == 2 || style == 4) {
+			// the $nil-argument crash class is kept on the evaluation
+			// goroutine, where it is classed by its input (see judge)
+			style = 0
+		}
+	}
 	if bounded {
 		style = []int{2, 4}[r.Intn(2)]
 	}
@@ -1033,7 +1042,7 @@ var corpus = []string{
 	"render-styledown (str:join '' [(repeat 31 a)])\"\u597d\\n\"(str:join '' [(repeat 31 ' ')])\"\u597d\\n\"",
 	"put [a b][1..0]", "put 'abc'[1..-9223372036854775808]", "put [a b c][(num 1e18)]", "put (num 1/3)[0]", "put \"a\\xffb\"[1]", "var l = [a b]; set l[2] = c",
 	"printf '%[5]d %[0]d %*d' 3", "order [(num nan) 1 a]", "order &less-than={|a b| put x } [b a]", "order &key={|x| fail k } [b a]", "compare (num nan) (num nan)", "base 1 5", "base 36 -9223372036854775808",
-	"randint 5 1", "randint 9223372036854775807 9223372036854775808", "-randseed 18446744073709551616", "take -1 [a]", "drop -1 [a]", "range 1 10 &step=0 | take 1", "range 0 1 &step=(num 1e-320) | take 2",
+	"randint 5 1", "randint 0 0", "randint 3 3", "randint -1 -1", "randint 9223372036854775807 9223372036854775808", "-randseed 18446744073709551616", "take -1 [a]", "drop -1 [a]", "range 1 10 &step=0 | take 1", "range 0 1 &step=(num 1e-320) | take 2",
 	"from-json < f1", "echo '[1, {\"a\": null}]' | from-json", "put (num nan) | to-json", "to-json [$nop~]", "from-terminated '' < in", "to-terminated \"\\x00\\x00\" [a]", "read-upto '' < in",
 	"flag:parse [-a] [[a]]", "flag:parse-getopt [--=x] [[&short=a]]", "flag:parse-getopt [-a] [[&short=ab]]", "flag:call {|&a=1 &a-b=2| } [--a-b x]", "flag:call $nop~ [a]",
 	"re:replace '(' x y", "re:find 'a{1000}{1000}' a", "re:replace a {|x| put $x $x } aa", "re:replace a {|x| put [$x] } aa", "re:awk {|@a| put $a[5] } < in", "re:split &max=0 a banana",
@@ -1112,6 +1121,12 @@ func Spec() *mon.Spec {
 			{Name: "lang", Quick: scale(8000), Thorough: scale(150000), Run: runLang, Timeout: 60 * time.Second},
 			{Name: "ports", Quick: scale(480), Thorough: scale(6000), Run: runPorts, Timeout: 60 * time.Second},
 		},
-		Floors: map[string]int{},
+		Floors: map[string]int{
+			"distinct_nontrivial": 6000, "callables_called": 150, "callables_body_reached": 140, "body_reached": 6000, "styles": 10,
+			"corpus_programs": 100, "lang_templates": 60, "lang_evaluated": 1500, "redir_forms_ok": 200,
+			"gen_redir-negative-dst": 100, "gen_redir-negative-src": 100, "gen_redir-huge-dst": 100,
+			"gen_values-from-chanless-port": 30, "gen_value-to-input-port": 40, "gen_stage-stdin-redirected": 30,
+			"outcome_ok": 5000, "outcome_exc_bad-value": 500,
+		},
 	}
 }
